@@ -15,6 +15,7 @@ import (
 	"github.com/KevoDB/kevo/pkg/replication"
 
 	"verif/internal/drive"
+	"verif/internal/ev"
 )
 
 // Result is what the child writes BEFORE any teardown; process exit is the
@@ -109,7 +110,7 @@ func watchdog(out string, res *Result) {
 		stepMu.Lock()
 		name, since := stepName, stepSince
 		stepMu.Unlock()
-		if strings.HasPrefix(name, "primary-op") && time.Since(since) > 30*time.Second {
+		if strings.HasPrefix(name, "primary-op") && time.Since(since) > time.Duration(float64(30*time.Second)*ev.LoadFactor()) {
 			// A write on the primary that does not return (normal: well below 1 ms) is
 			// reported with its own signature: the history of the property cannot even
 			// be completed. (That replicas must not block the primary is C15's
